@@ -107,6 +107,7 @@ type Event struct {
 	LoopID   int
 	Bounded  string // REP: how the trip count is bounded ("counted", "range", "" = unrecognised)
 	Inv      *Val   // REP: a relation that holds at the start of every iteration (counter within its bound), or nil
+	Invs     []*Val // REP: further relations that hold at the start of every iteration (a slice as long as its lock-step counter)
 	Deferred bool
 	Once     bool // the event belongs to the body of a sync.Once.Do (it happened here or in whichever goroutine came first)
 }
